@@ -80,6 +80,10 @@ type Cal struct {
 	ListOnQuery bool
 	// PrincipalFor: principal path of a user named in the request context (multi-user deployments)
 	PrincipalFor func(user string) string
+	// FilterOnQuery: answer a query with the stored objects under the path that the library's own Filter selects (store histories)
+	FilterOnQuery bool
+	// UniqueCols: creating a collection that exists is refused with 405 (store histories)
+	UniqueCols bool
 }
 
 // UserKey: a request context may name the authenticated user (set by the front of a multi-user deployment); PrincipalFor then
@@ -107,6 +111,13 @@ func (b *Cal) CreateCalendar(ctx context.Context, c *caldav.Calendar) error {
 	b.add("CreateCalendar", c.Path, *c)
 	b.mu.Lock()
 	defer b.mu.Unlock()
+	if b.UniqueCols {
+		for _, x := range b.Calendars {
+			if x.Path == c.Path {
+				return webdav.NewHTTPError(http.StatusMethodNotAllowed, fmt.Errorf("calendar exists"))
+			}
+		}
+	}
 	b.Calendars = append(b.Calendars, *c)
 	return nil
 }
@@ -164,6 +175,9 @@ func (b *Cal) ListCalendarObjects(ctx context.Context, path string, req *caldav.
 }
 func (b *Cal) QueryCalendarObjects(ctx context.Context, path string, q *caldav.CalendarQuery) ([]caldav.CalendarObject, error) {
 	b.add("QueryCalendarObjects", path, *q)
+	if b.FilterOnQuery {
+		return caldav.Filter(q, b.under(path))
+	}
 	if b.QueryResult == nil && b.ListOnQuery {
 		return b.under(path), nil
 	}
@@ -236,6 +250,9 @@ type Card struct {
 	ListOnQuery bool
 	// PrincipalFor: principal path of a user named in the request context (multi-user deployments)
 	PrincipalFor func(user string) string
+	// FilterOnQuery / UniqueCols: as for Cal
+	FilterOnQuery bool
+	UniqueCols    bool
 }
 
 func (b *Card) CurrentUserPrincipal(ctx context.Context) (string, error) {
@@ -268,6 +285,13 @@ func (b *Card) CreateAddressBook(ctx context.Context, ab *carddav.AddressBook) e
 	b.add("CreateAddressBook", ab.Path, *ab)
 	b.mu.Lock()
 	defer b.mu.Unlock()
+	if b.UniqueCols {
+		for _, x := range b.Books {
+			if x.Path == ab.Path {
+				return webdav.NewHTTPError(http.StatusMethodNotAllowed, fmt.Errorf("address book exists"))
+			}
+		}
+	}
 	b.Books = append(b.Books, *ab)
 	return nil
 }
@@ -319,6 +343,22 @@ func (b *Card) ListAddressObjects(ctx context.Context, path string, req *carddav
 }
 func (b *Card) QueryAddressObjects(ctx context.Context, path string, q *carddav.AddressBookQuery) ([]carddav.AddressObject, error) {
 	b.add("QueryAddressObjects", path, *q)
+	if b.FilterOnQuery {
+		b.mu.Lock()
+		var all []carddav.AddressObject
+		var ks []string
+		for k := range b.Objects {
+			ks = append(ks, k)
+		}
+		sort.Strings(ks)
+		for _, k := range ks {
+			if strings.HasPrefix(k, strings.TrimSuffix(path, "/")+"/") {
+				all = append(all, *b.Objects[k])
+			}
+		}
+		b.mu.Unlock()
+		return carddav.Filter(q, all)
+	}
 	if b.QueryResult == nil && b.ListOnQuery {
 		b.mu.Lock()
 		defer b.mu.Unlock()
